@@ -1,0 +1,28 @@
+//go:build verif
+
+package writecache
+
+import (
+	oid "github.com/nspcc-dev/neofs-sdk-go/object/id"
+)
+
+// VerifParkFlushLoop stops the background flush scheduler and workers of an
+// initialized cache and leaves the cache usable: from then on objects move to
+// the main storage only through explicit flush calls (verification harness only).
+func VerifParkFlushLoop(c Cache) {
+	cc := c.(*cache)
+	if cc.closeCh == nil {
+		return
+	}
+	close(cc.closeCh)
+	cc.wg.Wait()
+	cc.closeCh = make(chan struct{})
+}
+
+// VerifFlushSingle flushes one object the way a flush worker does.
+func VerifFlushSingle(c Cache, addr oid.Address) error {
+	cc := c.(*cache)
+	cc.modeMtx.RLock()
+	defer cc.modeMtx.RUnlock()
+	return cc.flushSingle(addr, false)
+}
